@@ -114,6 +114,31 @@ def S7(kind: str) -> Spec:
     if kind == "project-end":
         tasks = [Task("a", effort=P("e0"), alloc=["r"]), Task("b", effort=P("e1"), alloc=["r"], deps=[Dep("a")])]
         return Spec(tasks, [Res("r")], length="2w", scheduling="alap")
+    if kind.startswith("project-end,"):
+        # calendar entries that lie (partly) OUTSIDE the project window: a leave on the Friday before the project starts, a leave range
+        # spanning the project start / the project end, a leave after the end, a global holiday before the start
+        sp = S7("project-end")
+        what = kind.split(",", 1)[1]
+        r = sp.resources[0]
+        if what == "pre-leave":
+            r.leaves = ["annual 2025-01-03"]
+        elif what == "pre-range":
+            r.leaves = ["annual 2024-12-23 - 2025-01-04"]
+        elif what == "span-start":
+            r.leaves = ["annual 2025-01-03 - 2025-01-07"]
+        elif what == "span-end":
+            r.leaves = ["annual 2025-01-17 - 2025-01-25"]
+        elif what == "post-leave":
+            r.leaves = ["annual 2025-01-24"]
+        elif what == "pre-vacation":
+            r.vacation = ["2025-01-03"]
+        elif what == "pre-holiday":
+            sp.reports = ['leaves holiday "H" 2025-01-03']
+        elif what == "pre-global-vacation":
+            sp.vacations = ["2025-01-03", "2024-12-24 - 2025-01-02"]
+        else:
+            raise ValueError(kind)
+        return sp
     # same local ids in two containers
     tasks = [Task("p1", end=FRI), Task("build", parent="p1", effort=P("e0"), alloc=["r"]), Task("test", parent="p1", effort=P("e1"), alloc=["r"], deps=[Dep("p1.build")]),
              Task("p2", end=FRI - 2 * 86400), Task("build", parent="p2", effort=P("e2"), alloc=["q"]), Task("test", parent="p2", effort=P("e3"), alloc=["q"], deps=[Dep("p2.build")])]
@@ -225,6 +250,8 @@ def sched_cells(tier: str) -> dict[str, Callable[[], tuple[Spec, dict, Optional[
     add("S5dated", lambda: S5(dated=True), 60, 2 * H)
     for kind in ("same-deadline", "chain", "container", "project-end", "same-ids", "mixed"):
         add(f"S7[{kind}]", lambda kind=kind: S7(kind), 60, int(2.5 * H))
+    for what in ("pre-leave", "pre-range", "span-start", "span-end", "post-leave", "pre-vacation", "pre-holiday", "pre-global-vacation"):
+        add(f"S7[project-end,{what}]", lambda what=what: S7("project-end," + what), 60, int(1.5 * H))
     add("S2cross", S2cross, 60, int(2.5 * H))
     add("S2cross[busy]", lambda: S2cross(True), 60, int(2.5 * H))
 
@@ -343,6 +370,11 @@ class SxCheck:
         res.setdefault("samples", [{}])
         res["samples"][0]["bounds"] = {k: list(v) for k, v in cell.ranges.items()}
         res["samples"][0]["tjp_default"] = cell.text[:600]
+        w = _window_sizes(cell)
+        if w and len(set(w.values())) > 1:
+            # the parser extends the project end when the efforts need more room: the traced project (rendered with marker values) then has
+            # a window that differs from the one of the real project for some values of the ranges (counterexamples are replayed on the real one)
+            res["samples"][0]["window_depends_on_values"] = w
         res["witness_default_values_ok"] = bool(ok)
         return res
 
@@ -351,6 +383,28 @@ class SxCheck:
         tier = "thorough" if name not in self._cells("quick") else "quick"
         cell = self.make_cell(name, tier)
         return cell.replay(record["inputs"])
+
+
+def _window_sizes(cell: Any) -> dict:
+    """slots of the project window after the scheduler's preparation, for the marker values (= the traced project) and for the smallest /
+    largest values of the ranges"""
+    import contextlib
+    import io
+
+    from sx import world
+    from sx.spec import render
+
+    out = {}
+    try:
+        for nm, vals in (("traced", cell.markers), ("lo", {k: cell.ranges[k][0] for k in cell.names}), ("hi", {k: cell.ranges[k][1] for k in cell.names})):
+            sizes = []
+            for sp in getattr(cell, "specs", [cell.spec]):
+                with contextlib.redirect_stderr(io.StringIO()), contextlib.redirect_stdout(io.StringIO()):
+                    sizes.append(world.prepare(world.parse(render(sp, vals)))["size"])
+            out[nm] = sizes[0] if len(sizes) == 1 else tuple(sizes)
+    except Exception:  # noqa: BLE001 - informational only
+        return {}
+    return out
 
 
 def known_match(k: dict, record: dict) -> bool:
@@ -393,7 +447,8 @@ QUICK_CELLS = {
     "C06": _BANDS + ["S1x2[eff=1.0]", "S1x2[eff=2.0]", "S2x2[eff=0.5]", "S2x2[res=900]", "S2x2+milestone", "S2x2+milestone[gap=29min]", "S3team",
                      "S3mixed[prefix]", "S2cross[prefix]", "S2cross[busy,bound-slot-full]", "S7[same-deadline]", "S7[container]", "S7[project-end]", "S7[mixed]"],
     "C08": _BANDS + ["S1x2[eff=1.0]", "S2x2[eff=0.5]", "S2x2[gap=1h]", "S2x2[onstart]", "S2x2+1", "S3team", "S3mixed[prefix]", "S2cross[prefix]",
-                     "S2cross[busy,bound-slot-full]", "S7[same-deadline]", "S7[chain]", "S7[container]", "S7[project-end]", "S7[same-ids]"],
+                     "S2cross[busy,bound-slot-full]", "S7[same-deadline]", "S7[chain]", "S7[container]", "S7[project-end]", "S7[same-ids]",
+                     "S7[project-end,pre-leave]", "S7[project-end,span-start]", "S7[project-end,span-end]", "S7[project-end,pre-holiday]"],
     "C10": ["Sgroup", "S5containers", "S5dated", "S10[plain]", "S10[dated]", "S10[start]", "S10[dep]", "S3team", "S7[container]", "S7[same-ids]", "S2levels[outer-gap]", "S6[dparent]", "S6[dgroup]"],
 }
 
